@@ -5,6 +5,10 @@ mod e_fmt;
 mod e_buf;
 mod e_cmp;
 mod e_bufmut;
+mod ledger;
+mod e_heap;
+#[global_allocator]
+static GLOBAL: ledger::Ledger = ledger::Ledger;
 
 use std::io::{BufWriter, Write};
 
@@ -33,7 +37,8 @@ fn main() {
     let seed: u64 = arg(&args, "--seed", 1);
     let n: usize = arg(&args, "--n", 100);
     // quiet panics: outcomes are reported through catch_unwind
-    std::panic::set_hook(Box::new(|_| {}));
+    let dbg = std::env::var("VERIF_DEBUG").is_ok();
+    std::panic::set_hook(Box::new(move |i| { ledger::stop_tracking(); if dbg { eprintln!("panic: {}", i); } }));
     match cmd {
         "buf-random" => e_buf::buf_random(&mut out, seed, n, arg(&args, "--depth", 3)),
         "buf-codec" => e_buf::buf_codec(&mut out, seed, n),
@@ -43,6 +48,8 @@ fn main() {
         "bufmut-random" => e_bufmut::bufmut_random(&mut out, seed, n, arg(&args, "--depth", 3)),
         "bufmut-codec" => e_bufmut::bufmut_codec(&mut out, seed, n),
         "bufmut-replay" => e_bufmut::bufmut_replay(&mut out),
+        "heap-random" => e_heap::heap_random(&mut out, seed, n, arg(&args, "--odd", 0u8) == 1, arg(&args, "--wild", 30), arg(&args, "--maxops", 30)),
+        "heap-replay" => e_heap::heap_replay(&mut out),
         "escapes" => e_fmt::escapes(&mut out),
         "fmt" => e_fmt::fmt_cases(&mut out, seed, n, !flag(&args, "--no-pairs")),
         #[cfg(feature = "serde")]
